@@ -45,6 +45,26 @@ def canon(impl, v, depth=0):
     return ["object", type(v).__name__]
 
 
+def show_canon(c):
+    """Canonical form back to readable text: Python literals, events as Event(+offset, duration, data) in seconds."""
+    if not isinstance(c, list) or not c:
+        return repr(c)
+    t = c[0]
+    if t in ("int", "str", "bool", "NoneType"):
+        return repr(c[1])
+    if t == "float":
+        return c[1]
+    if t == "list":
+        return "[" + ", ".join(show_canon(x) for x in c[1]) + "]"
+    if t == "dict":
+        return "{" + ", ".join(show_canon(k) + ": " + show_canon(v) for k, v in c[1]) + "}"
+    if t == "event":
+        return f"Event(+{c[1] / 1e6:g}s, {c[2] / 1e6:g}s, {show_canon(c[3])})"
+    if t == "timedelta":
+        return f"timedelta({c[1] / 1e6:g}s)"
+    return "<" + " ".join(str(x) for x in c) + ">"
+
+
 def outcome_key(r):
     kind, payload = r["outcome"]
     return "value" if kind == "value" else (payload if kind == "error" else kind)
